@@ -1030,6 +1030,9 @@ class Interp:
             return [VUnknown("*" + v.tag, "starred", v.origin)]
         if isinstance(v, VList) and v.obj.items is None:
             return [VUnknown("*list", "starred")]
+        if isinstance(v, VTens) and v.shape is not None and len(v.shape) >= 1 and isinstance(v.shape[0], int) and 0 < v.shape[0] <= 4:
+            # *t of a tensor with a small, known leading size: its slabs t[0], t[1], ...
+            return [self.ops.subscript(self, v, VConst(k_), node) for k_ in range(v.shape[0])]
         raise Unsupported("star-unpack of %r" % (v,), node, self.site(node))
 
     def ev_Dict(self, node):
